@@ -84,6 +84,20 @@ def multinomialIndices [Add K] [Div K] [OfNat K 0] [LE K] [DecidableLE K]
   let c := cdf w
   (us.take n).map (fun u => ssr c u)
 
+/-- `np.where(a > b)[0]` for two arrays (position counter explicit): targets of the definitions GENERATED from the source
+(`Gen/ResampleTx.lean`, harness/pylogvec2lean.py) -/
+def whereGtGo [LT K] [DecidableLT K] : Nat → List K → List K → List Nat
+  | _, [], _ => []
+  | _, _ :: _, [] => []
+  | k, a :: as, b :: bs => if b < a then k :: whereGtGo (k + 1) as bs else whereGtGo (k + 1) as bs
+
+def whereGt [LT K] [DecidableLT K] (a b : List K) : List Nat := whereGtGo 0 a b
+
+/-- `np.random.choice(N, size=n, p=p, replace=True)` fed the uniforms `us` (legacy `RandomState.choice`) -/
+def choiceIdx [Add K] [Div K] [OfNat K 0] [LE K] [DecidableLE K] (p : List K) (n : Nat) (us : List K) : List Nat :=
+  let c := cdfOfProbs p
+  (us.take n).map (fun u => ssr c u)
+
 /-- `effective_sample_size`: `exp(-logsumexp(2 * (log_w - logsumexp(log_w))))` = `1 / Σ pᵢ²` -/
 def ess [Add K] [Mul K] [Div K] [OfNat K 0] [OfNat K 1] (w : List K) : K :=
   1 / lsum ((probs w).map (fun p => p * p))
